@@ -106,7 +106,9 @@ func (e *PathMatchExpression) expandPaths(sub *PathMatchExpression) {
 	for i, dest := range e.paths {
 		for j, src := range sub.paths {
 			k := (i * len(sub.paths)) + j
-			expanded[k] = append(dest, src...)
+			// each expanded path needs its own storage, appending to dest directly would let
+			// the alternatives overwrite each other
+			expanded[k] = append(append(make(segments, 0, len(dest)+len(src)), dest...), src...)
 		}
 	}
 	e.paths = expanded
